@@ -226,7 +226,7 @@ fn cancels<F: Field>(a: &[F], b: &[F], res: &[F]) -> bool {
 // ------------------------------------------------------------------------------------------------
 // A. dense additive operators
 
-fn dense_additive<F: FftField + PrimeField>(rep: &mut Report, rng: &mut Rng, args: &Args, fname: &'static str) {
+fn dense_additive<F: FftField + PrimeField>(rep: &mut Report, rng: &mut Rng, args: &Args, fname: &'static str, shards: usize) {
     for c in [
         "cancel: dense add", "cancel: dense sub", "cancel: dense add_assign", "cancel: dense sub_assign", "cancel: dense scaled add",
         "scaled add: f = 0", "scaled add: f = 1", "result = 0", "scaled add: self = 0 and f = 0",
@@ -235,7 +235,7 @@ fn dense_additive<F: FftField + PrimeField>(rep: &mut Report, rng: &mut Rng, arg
     }
     rep.config(fname);
     let maxlen = args.pick(71, 601);
-    for _ in 0..args.pick(20_000, 250_000) {
+    for _ in 0..args.pick(20_000, 250_000) / shards {
         let (p, q, rel) = gen_pair::<F>(rng, maxlen);
         let pts = points::<F>(rng);
         let nontriv = !p.is_empty() || !q.is_empty();
@@ -332,13 +332,13 @@ fn general_size<F: FftField + PrimeField>(n: usize) -> Option<u64> {
     <GeneralEvaluationDomain<F> as Kind<F>>::expected(n as u64, &par_of::<F>())
 }
 
-fn dense_mul<F: FftField + PrimeField>(rep: &mut Report, rng: &mut Rng, args: &Args, fname: &'static str) {
+fn dense_mul<F: FftField + PrimeField>(rep: &mut Report, rng: &mut Rng, args: &Args, fname: &'static str, shards: usize) {
     rep.config(fname);
     rep.require("fft product: domain size > 64");
     rep.require("product with a zero operand");
     let maxlen = args.pick(71, 601);
     let par = par_of::<F>();
-    for it in 0..args.pick(6000, 40_000) {
+    for it in 0..args.pick(6000, 40_000) / shards {
         let (mut p, mut q, rel) = gen_pair::<F>(rng, maxlen);
         if it % 5 == 0 && !p.is_empty() && !q.is_empty() {
             // force a long product in the quick tier too
@@ -384,13 +384,13 @@ fn dense_mul<F: FftField + PrimeField>(rep: &mut Report, rng: &mut Rng, args: &A
     let _ = par;
 }
 
-fn dense_div<F: FftField + PrimeField>(rep: &mut Report, rng: &mut Rng, args: &Args, fname: &'static str) {
+fn dense_div<F: FftField + PrimeField>(rep: &mut Report, rng: &mut Rng, args: &Args, fname: &'static str, shards: usize) {
     rep.config(fname);
     for c in ["division: exact (remainder 0)", "division: deg a < deg b", "division: constant divisor", "division: dividend = 0", "division: remainder degree drops by more than one"] {
         rep.require(c);
     }
     let maxlen = args.pick(71, 401);
-    for _ in 0..args.pick(8000, 60_000) {
+    for _ in 0..args.pick(8000, 60_000) / shards {
         // dividends built as q0*b + r0 half of the time so that exact divisions and short remainders occur
         let (l1, l2, l3) = (gen_len(rng, maxlen / 2), gen_len(rng, maxlen / 2), gen_len(rng, maxlen));
         let b: Vec<F> = match rng.next_u32() % 6 {
@@ -644,7 +644,7 @@ fn eval_interp<F: FftField + PrimeField, D: Kind<F>>(rep: &mut Report, rng: &mut
 // ------------------------------------------------------------------------------------------------
 // F. dense/sparse mixes and conversions
 
-fn mixes<F: FftField + PrimeField>(rep: &mut Report, rng: &mut Rng, args: &Args, fname: &'static str) {
+fn mixes<F: FftField + PrimeField>(rep: &mut Report, rng: &mut Rng, args: &Args, fname: &'static str, shards: usize) {
     rep.config(fname);
     for c in [
         "cancel: dense + sparse", "cancel: dense - sparse", "cancel: dense += sparse", "cancel: dense -= sparse",
@@ -654,7 +654,7 @@ fn mixes<F: FftField + PrimeField>(rep: &mut Report, rng: &mut Rng, args: &Args,
         rep.require(c);
     }
     let maxlen = args.pick(71, 301);
-    for _ in 0..args.pick(20_000, 250_000) {
+    for _ in 0..args.pick(20_000, 250_000) / shards {
         let lp = gen_len(rng, maxlen);
         let p: Vec<F> = rand_poly(rng, lp);
         let mut s: Vec<(usize, F)> = gen_sparse(rng, maxlen + 20);
@@ -860,13 +860,13 @@ fn gen_sparse_pair<F: Field>(rng: &mut Rng, maxdeg: usize) -> (Vec<(usize, F)>, 
     }
 }
 
-fn sparse_additive<F: FftField + PrimeField>(rep: &mut Report, rng: &mut Rng, args: &Args, fname: &'static str) {
+fn sparse_additive<F: FftField + PrimeField>(rep: &mut Report, rng: &mut Rng, args: &Args, fname: &'static str, shards: usize) {
     rep.config(fname);
     for c in ["cancel: sparse add", "cancel: sparse add_assign", "cancel: sparse scaled add", "cancel: sparse sub_assign", "sparse: middle term cancels in a sum", "scaled add: f = 0", "scaled add: f = 1", "result = 0"] {
         rep.require(c);
     }
     let maxdeg = args.pick(70, 600);
-    for _ in 0..args.pick(25_000, 300_000) {
+    for _ in 0..args.pick(25_000, 300_000) / shards {
         let (a, b, rel) = gen_sparse_pair::<F>(rng, maxdeg);
         let (am, bm) = (from_terms(&a), from_terms(&b));
         let pts = points::<F>(rng);
@@ -939,13 +939,13 @@ fn sparse_additive<F: FftField + PrimeField>(rep: &mut Report, rng: &mut Rng, ar
     }
 }
 
-fn sparse_mul<F: FftField + PrimeField>(rep: &mut Report, rng: &mut Rng, args: &Args, fname: &'static str) {
+fn sparse_mul<F: FftField + PrimeField>(rep: &mut Report, rng: &mut Rng, args: &Args, fname: &'static str, shards: usize) {
     rep.config(fname);
     rep.require("sparse product: a middle term cancels");
     rep.require("sparse product with a zero operand");
     rep.require("sparse evaluate: degree 0");
     let maxdeg = args.pick(70, 600);
-    for it in 0..args.pick(20_000, 250_000) {
+    for it in 0..args.pick(20_000, 250_000) / shards {
         let (mut a, mut b, mut rel) = gen_sparse_pair::<F>(rng, maxdeg);
         if it % 4 == 0 {
             // (u x^i + v x^j)(u x^i - v x^j): the x^(i+j) terms cancel
@@ -1053,12 +1053,16 @@ fn evaluations_ops<F: FftField + PrimeField, D: Kind<F>>(rep: &mut Report, rng: 
 // ------------------------------------------------------------------------------------------------
 
 fn add_field<F: FftField + PrimeField>(v: &mut Vec<Item>, fname: &'static str) {
-    v.push(Item::new(format!("dense-additive/{fname}"), move |r, g, a| dense_additive::<F>(r, g, a, fname)));
-    v.push(Item::new(format!("dense-mul/{fname}"), move |r, g, a| dense_mul::<F>(r, g, a, fname)));
-    v.push(Item::new(format!("dense-div/{fname}"), move |r, g, a| dense_div::<F>(r, g, a, fname)));
-    v.push(Item::new(format!("mixes/{fname}"), move |r, g, a| mixes::<F>(r, g, a, fname)));
-    v.push(Item::new(format!("sparse-additive/{fname}"), move |r, g, a| sparse_additive::<F>(r, g, a, fname)));
-    v.push(Item::new(format!("sparse-mul/{fname}"), move |r, g, a| sparse_mul::<F>(r, g, a, fname)));
+    // the random-operand groups are split into shards (independent PRNG streams) for load balance
+    const SH: usize = 4;
+    for k in 0..SH {
+        v.push(Item::new(format!("dense-additive/{fname}/s{k}"), move |r, g, a| dense_additive::<F>(r, g, a, fname, SH)));
+        v.push(Item::new(format!("dense-mul/{fname}/s{k}"), move |r, g, a| dense_mul::<F>(r, g, a, fname, SH)));
+        v.push(Item::new(format!("dense-div/{fname}/s{k}"), move |r, g, a| dense_div::<F>(r, g, a, fname, SH)));
+        v.push(Item::new(format!("mixes/{fname}/s{k}"), move |r, g, a| mixes::<F>(r, g, a, fname, SH)));
+        v.push(Item::new(format!("sparse-additive/{fname}/s{k}"), move |r, g, a| sparse_additive::<F>(r, g, a, fname, SH)));
+        v.push(Item::new(format!("sparse-mul/{fname}/s{k}"), move |r, g, a| sparse_mul::<F>(r, g, a, fname, SH)));
+    }
     fn dom_items<F: FftField + PrimeField, D: Kind<F> + 'static>(v: &mut Vec<Item>, fname: &'static str) {
         if !D::applicable(&par_of::<F>()) {
             return;
@@ -1074,17 +1078,19 @@ fn add_field<F: FftField + PrimeField>(v: &mut Vec<Item>, fname: &'static str) {
 }
 
 fn weight(name: &str) -> u32 {
-    let big = ["bn384", "bls12_381", "bls12_377"].iter().any(|f| name.contains(f));
-    let w = if name.starts_with("eval-interp") {
-        8
-    } else if name.starts_with("sparse-additive") || name.starts_with("dense-additive") || name.starts_with("mixes") {
-        5
-    } else if name.starts_with("vanishing") || name.starts_with("dense-mul") || name.starts_with("sparse-mul") {
-        3
+    // relative cost measured on the thorough tier; heaviest items are scheduled first
+    let field = if name.contains("bn384") {
+        6
+    } else if name.contains("bls12_381") || name.contains("bls12_377") {
+        4
     } else {
         1
     };
-    w * if big { 4 } else { 1 }
+    let group = [("sparse-additive", 10), ("dense-mul", 8), ("eval-interp", 7), ("dense-additive", 4), ("sparse-mul", 4), ("vanishing", 3), ("mixes", 3), ("dense-div", 2)]
+        .iter()
+        .find(|(g, _)| name.starts_with(g))
+        .map_or(1, |(_, w)| *w);
+    field * group
 }
 
 pub fn items(_args: &Args) -> Vec<Item> {
